@@ -182,6 +182,12 @@ class Ctx:
             self.trusted.append(s)
 
 
+def _jsonable(o):
+    if isinstance(o, (set, frozenset)):
+        return sorted(o, key=str)
+    return str(o)
+
+
 def load_known():
     p = os.path.join(VERIF, "known_findings.json")
     if not os.path.exists(p):
@@ -210,7 +216,7 @@ def finish(ctx, level="other", explanation="", rule_text="", checker_cmd=None, e
         h = hashlib.sha1(v["key"].encode()).hexdigest()[:10]
         path = os.path.join(rp_dir, "%s-%s.json" % (ctx.prop, h))
         with open(path, "w") as fh:
-            json.dump(v, fh, indent=1)
+            json.dump(v, fh, indent=1, default=_jsonable)
         loc = ""
         if v.get("file") or v.get("function"):
             loc = " at %s:%s in %s" % (v.get("file", "?"), v.get("line", "?"), v.get("function", "?"))
@@ -267,7 +273,7 @@ def finish(ctx, level="other", explanation="", rule_text="", checker_cmd=None, e
         "known_findings_matched": len(ctx.violations) - len(new_violations),
     }
     with open(os.path.join(ev_dir, ctx.prop + ".json"), "w") as fh:
-        json.dump(ev, fh, indent=1)
+        json.dump(ev, fh, indent=1, default=_jsonable)
     n_ok = sum(1 for i in ctx.instances if i["ok"])
     print("%s: %d rule instances evaluated (%d non-trivial distinct), %d ok, %d violation(s), %d known; "
           "%d functions; %.1fs"
